@@ -7,6 +7,7 @@
 -/
 import Stab.Lemmas.EngineBasic
 import Stab.Lemmas.EngineClaim
+import Stab.Lemmas.EngineCancel
 
 namespace Stab.Props.C17
 open Stab Stab.Engine
@@ -92,6 +93,16 @@ theorem no_claim_after_cancel (c : Cfg) (s : State) (row : Row) (i : Nat) (e : E
   have : hStartStage c s row.id i r = [] := startStage_after_cancel_is_inert c s row.id i r hc hns
   simp [handle, hm, this] at he
 
+/-- **Once a cancel has been accepted, a drained queue means the workflow has reached a final status** — for EVERY
+    workflow (any join types, OR-splits, jumps, suspends, any task results) and every schedule made of acknowledged
+    deliveries in any order, further cancel requests, signals and recovery sweeps, of any length.  (The invariant: the
+    delivery that sets the flag pushes CompleteWorkflow, and a CompleteWorkflow handled while the workflow is canceled and
+    not final either finalises it or re-queues itself; `Lemmas/EngineCancel.lean`.)  Which final status it is — CANCELED
+    unless the workflow had in effect finished — is decided by `finalStatus` and monitored (`mon_c17`). -/
+theorem canceled_drained_is_final (c : Cfg) (ops : List Op) (ha : Acked ops)
+    (hc : (run c ops).canceled = true) (hq : (run c ops).queue = []) : (run c ops).wfStatus.isComplete = true :=
+  Stab.Engine.canceled_drained_is_final c ops ha hc hq
+
 -- non-vacuity: a canceled state exists and is reached by an actual run of a one-stage workflow
 def demoStage : StageCfg :=
   { reqs := [], join := JoinType.and, threshold := 0, cont := false, failp := true, enabled := none,
@@ -99,5 +110,14 @@ def demoStage : StageCfg :=
 def demoCfg : Cfg := { wfMaxj := none, stages := [demoStage] }
 
 example : (run demoCfg [Op.deliver 1, Op.cancel, Op.deliver 3]).canceled = true := by decide
+
+-- the hypotheses of `canceled_drained_is_final` are met by an actual run: cancel after the stage started, then drain
+example : Acked [Op.deliver 1, Op.cancel, Op.deliver 3, Op.deliver 2, Op.deliver 4, Op.deliver 5, Op.deliver 6, Op.deliver 7] ∧
+    (run demoCfg [Op.deliver 1, Op.cancel, Op.deliver 3, Op.deliver 2, Op.deliver 4, Op.deliver 5, Op.deliver 6, Op.deliver 7]).canceled = true := by
+  refine ⟨?_, by decide⟩
+  intro op hop
+  simp only [List.mem_cons, List.mem_nil_iff, or_false] at hop
+  rcases hop with rfl | rfl | rfl | rfl | rfl | rfl | rfl | rfl
+  all_goals first | exact Or.inl ⟨_, rfl⟩ | exact Or.inr (Or.inl rfl)
 
 end Stab.Props.C17
